@@ -1,7 +1,7 @@
 """C05 — condition variable: atomic unlock-and-wait, no lost signal, broadcast wakes all (structural part)."""
 from core import strip, is_field, key_mentions, order_ge, key_str
 from facts import AnalysisBroken
-from rules import (check_init, nodeset, ev, Unevaluable, forced_edges, atom_from, reach, atomic_ops, ret_const, callpred)
+from rules import (writer_kind, check_init, nodeset, ev, Unevaluable, forced_edges, atom_from, reach, atomic_ops, ret_const, callpred)
 import stale
 from props import c01
 from props import deps
@@ -159,7 +159,7 @@ def run(ctx):
                     if fn.name not in ("fiber_cond_signal", "fiber_cond_broadcast"):
                         bad = bad or ("`%s` in %s" % (c.text, fn.name), c)
         for s in fn.stores_to(C, "waiter_count"):
-            kind = s.aop if s.kind in ("atomic", "sync") else "assign"
+            kind = writer_kind(s)
             ok = {"fiber_cond_wait": {"fetch_add"}, "fiber_cond_signal": {"fetch_sub", "fetch_add"}, "fiber_cond_broadcast": {"exchange"}}
             if kind not in ok.get(fn.name, ()):
                 bad = bad or ("`%s` in %s" % (s.node.text, fn.name), s.node)
